@@ -234,6 +234,123 @@ theorem restart_keeps_files (s : St) :
     (step s .restart).conf = s.conf ∧ (step s .restart).stream = s.stream ∧ (step s .restart).ptFile = some [] ∧
     (step s .restart).pairs = [] := ⟨rfl, rfl, rfl, rfl⟩
 
+/-! ### the directory as a function of the operation history -/
+
+/-- What one operation does to the file `f` of conf.d, given what was there. -/
+def confEffect (f : String) (cur : Option Nat) : Op → Option Nat
+  | .addIng ns name uid => if f = ingFile ns name then some uid else cur
+  | .addVs ns name uid => if f = vsFile ns name then some uid else cur
+  | .delIng key => if f = ingFileKey key then none else cur
+  | .delVs key => if f = vsFileKey key then none else cur
+  | .batchIng keys => if f ∈ keys.map ingFileKey then none else cur
+  | .batchVs keys => if f ∈ keys.map vsFileKey then none else cur
+  | _ => cur
+
+/-- …and to the file `f` of stream-conf.d. -/
+def streamEffect (f : String) (cur : Option Nat) : Op → Option Nat
+  | .addTs ns name uid _ => if f = tsFile ns name then some uid else cur
+  | .delTs key => if f = tsFileKey key then none else cur
+  | .batchTs keys => if f ∈ keys.map tsFileKey then none else cur
+  | _ => cur
+
+private theorem fold_erase_get (keys : List String) (g : String → String) (m : Map Nat) (f : String) :
+    (keys.foldl (fun m k => m.erase (g k)) m).get? f = if f ∈ keys.map g then none else m.get? f := by
+  induction keys generalizing m with
+  | nil => simp
+  | cons k ks ih =>
+    simp only [List.foldl_cons, List.map_cons, List.mem_cons]
+    rw [ih, Map.get?_erase]
+    by_cases h1 : f = g k
+    · simp [h1]
+    · by_cases h2 : f ∈ ks.map g <;> simp [h1, h2]
+
+private theorem fold_delTs_stream (keys : List String) (s : St) (f : String) :
+    (keys.foldl delTs s).stream.get? f = if f ∈ keys.map tsFileKey then none else s.stream.get? f := by
+  induction keys generalizing s with
+  | nil => simp
+  | cons k ks ih =>
+    simp only [List.foldl_cons, List.map_cons, List.mem_cons]
+    rw [ih, delTs_stream]
+    by_cases h1 : f = tsFileKey k
+    · simp [h1]
+    · by_cases h2 : f ∈ ks.map tsFileKey <;> simp [h1, h2]
+
+private theorem fold_delTs_conf (keys : List String) (s : St) : (keys.foldl delTs s).conf = s.conf := by
+  induction keys generalizing s with
+  | nil => rfl
+  | cons k ks ih =>
+    simp only [List.foldl_cons]
+    rw [ih]
+    simp only [delTs]; split <;> rfl
+
+theorem step_conf (s : St) (op : Op) (f : String) : (step s op).conf.get? f = confEffect f (s.conf.get? f) op := by
+  cases op <;> simp only [step, confEffect]
+  case addIng ns name uid => rw [Map.get?_set]
+  case addVs ns name uid => rw [Map.get?_set]
+  case addTs ns name uid host => split <;> (try split) <;> rfl
+  case delIng key => rw [Map.get?_erase]
+  case delVs key => rw [Map.get?_erase]
+  case delTs key => simp only [delTs]; split <;> rfl
+  case batchIng keys => exact fold_erase_get keys ingFileKey s.conf f
+  case batchVs keys => exact fold_erase_get keys vsFileKey s.conf f
+  case batchTs keys => rw [fold_delTs_conf]
+
+theorem step_stream (s : St) (op : Op) (f : String) : (step s op).stream.get? f = streamEffect f (s.stream.get? f) op := by
+  cases op <;> simp only [step, streamEffect]
+  case addTs ns name uid host =>
+    have : ∀ t : St, t.stream = s.stream.set (tsFile ns name) uid → t.stream.get? f = if f = tsFile ns name then some uid else s.stream.get? f := by
+      intro t ht; rw [ht, Map.get?_set]
+    split
+    · exact this _ rfl
+    · split
+      · exact this _ rfl
+      · exact this _ rfl
+  case delTs key => exact delTs_stream s key f
+  case batchTs keys => exact fold_delTs_stream keys s f
+  all_goals rfl
+
+/-- **The content of every file of conf.d and of stream-conf.d is a function of the operations that name that very file** — for
+every operation sequence (restarts included: they touch no file) and every file name: the file holds the resource of the last
+add that maps to its name, and is absent if a delete that maps to its name came later or no add ever did. Together with the
+injectivity of the VirtualServer / TransportServer file names (`vs_name_inj`, `ts_name_inj`, `key_meta_agree`,
+`kinds_disjoint`) this is "one file per served resource, carrying that resource, and no other file"; for Ingress names it is
+exactly as far as `ing_name_inj_nodash` goes (S-C10-a). -/
+theorem files_eq_served (ops : List Op) (s : St) (f : String) :
+    (run s ops).conf.get? f = ops.foldl (confEffect f) (s.conf.get? f) ∧
+    (run s ops).stream.get? f = ops.foldl (streamEffect f) (s.stream.get? f) := by
+  induction ops generalizing s with
+  | nil => exact ⟨rfl, rfl⟩
+  | cons op r ih =>
+    simp only [run, List.foldl_cons]
+    have := ih (step s op)
+    simp only [run] at this
+    rw [this.1, this.2, step_conf, step_stream]
+    exact ⟨rfl, rfl⟩
+
+/-- Corollary: starting from empty directories, a file exists only if some operation of the history is an add that maps to its name. -/
+theorem no_file_without_add (ops : List Op) (f : String)
+    (h : ∀ op ∈ ops, (∀ ns name uid, op = .addIng ns name uid → f ≠ ingFile ns name) ∧ (∀ ns name uid, op = .addVs ns name uid → f ≠ vsFile ns name)) :
+    (run {} ops).conf.get? f = none := by
+  rw [(files_eq_served ops {} f).1]
+  have hinit : ({} : St).conf.get? f = none := rfl
+  rw [hinit]
+  suffices hgen : ∀ (l : List Op), (∀ op ∈ l, (∀ ns name uid, op = .addIng ns name uid → f ≠ ingFile ns name) ∧
+      (∀ ns name uid, op = .addVs ns name uid → f ≠ vsFile ns name)) → l.foldl (confEffect f) none = none from hgen ops h
+  intro l
+  induction l with
+  | nil => intro _; rfl
+  | cons op r ih =>
+    intro hl
+    simp only [List.foldl_cons]
+    have hop := hl op (by simp)
+    have : confEffect f none op = none := by
+      cases op <;> simp only [confEffect]
+      case addIng ns name uid => simp [hop.1 ns name uid rfl]
+      case addVs ns name uid => simp [hop.2 ns name uid rfl]
+      all_goals (try split) <;> rfl
+    rw [this]
+    exact ih (fun o ho => hl o (List.mem_cons_of_mem _ ho))
+
 /-! ### non-vacuity -/
 example : (run {} [.addVs "a" "b" 1, .addVs "a-b" "c" 2, .delVs "a/b"]).conf = [("vs_a-b_c", 2)] := by decide
 example : (run {} [.addIng "a-b" "c" 1, .addIng "a" "b-c" 2]).conf = [("a-b-c", 2)] := by decide   -- S-C10-a
